@@ -66,6 +66,29 @@ fn gen_mnemonic(rng: &mut Rng, existing: &[String]) -> String {
         }
         // one character
         4 if rng.below(2) == 0 => rng.letters(1, true, 26),
+        // an underscore (legal in 488.2 character data) inside the required part, at its end, or in the tail
+        4 if rng.below(3) == 0 => {
+            let na = 1 + rng.below(3) as usize;
+            let a = rng.letters(na, true, alphabet);
+            match rng.below(3) {
+                0 => {
+                    let nb = 1 + rng.below(3) as usize;
+                    let b = rng.letters(nb, true, alphabet);
+                    let nl = rng.below(3) as usize;
+                    format!("{a}_{b}{}", rng.letters(nl, false, alphabet))
+                }
+                1 => {
+                    let nl = 1 + rng.below(4) as usize;
+                    format!("{a}_{}", rng.letters(nl, false, alphabet))
+                }
+                _ => {
+                    let nl = 1 + rng.below(2) as usize;
+                    let l = rng.letters(nl, false, alphabet);
+                    let nm = 1 + rng.below(2) as usize;
+                    format!("{a}{l}_{}", rng.letters(nm, false, alphabet))
+                }
+            }
+        }
         // digits embedded in the required part (P6V, N25V, CH1A)
         4 => {
             let a = rng.letters(1, true, alphabet);
